@@ -223,3 +223,11 @@ package macat
 //@
 //@ func (*App).addDialLocal
 //@   before call:addDial#1 assert true
+
+// ---- round 10 (C20): every message is printed through a writer of its own, flushed before printMsg
+// returns: an output error affects that message only ----
+//@ func (*App).printMsg
+//@   before call:NewWriter#1 assert arg0 == a.stdOut
+//@   loop 1 invariant called("NewWriter")
+//@   loop 2 invariant called("NewWriter")
+//@   ensures a.printFormat != "no" ==> called("NewWriter") && called("Flush")
